@@ -534,5 +534,11 @@ def check(ctx):
     r3_r4_structure(ctx)
     r5_elastic(ctx)
     r6_monomials(ctx)
+    from . import c01
+    ctx.alias = {"R7": "R6"}          # Trend.predict sums coef_k * easting^i * northing^j over the same combinations as the Jacobian (C01.R7)
+    try:
+        c01.r7_trend(ctx)
+    finally:
+        ctx.alias = {}
     r7_checkerboard(ctx)
     r8_scipy(ctx)
